@@ -484,8 +484,10 @@ func runCase(t *testing.T, rnd *hx.Rand, caseNo int, nops int, withStore bool, i
 					ms = []int{1000, 2000, 4000, 8000, 8000, 20000, 100000, 250000}[rnd.Intn(8)]
 				}
 				return op{Kind: "tick", Ms: ms}, true
-			case x < 81:
+			case x < 80:
 				return op{Kind: "purge-elsewhere:" + []string{"absent-cache", "neighbour-cache", "other-key"}[rnd.Intn(3)]}, true
+			case x < 81:
+				return op{Kind: "reapply"}, true
 			case x < 84:
 				return op{Kind: "purge", DelOK: !rnd.Chance(15) || !withStore, AllCaches: rnd.Bool()}, true
 			case x < 89:
@@ -587,6 +589,11 @@ func runCase(t *testing.T, rnd *hx.Rand, caseNo int, nops int, withStore bool, i
 				}
 				record(op{Kind: "purge", DelOK: delOK, AllCaches: o.AllCaches}, fmt.Sprintf("(OpPurge %s)", hx.Bool(delOK)))
 				dist["purge"]++
+			case o.Kind == "reapply":
+				// the unchanged cache configuration applied again (any admin save does this): nothing may change
+				cache.ResetDispatchers(w.cfg)
+				record(op{Kind: "reapply"}, "(OpTick 0)")
+				dist["reapply"]++
 			case o.Kind == "evict":
 				cache.GetDispatcher(name).GetHTTPCache(w.filler)
 				record(op{Kind: "evict"}, "OpEvict")
@@ -738,7 +745,7 @@ func TestFlight(t *testing.T) {
 	n := envInt("PV_N", 50)
 	rnd := hx.NewRand(seed)
 	sum := hx.NewSummary("flight", seed)
-	sum.Rule = "one case = one history of 30-45 ops on one cache key through the real cache middleware (server.NewCache over a real size-8 dispatcher, fake store in half of the cases) under testing/synctest: arrive (GET, 6% POST) / release of an in-flight upstream exchange with outcome {cacheable ttl 1,2,3,5 | uncacheable | error | nil response | panic} / tick 200 ms..301 s / purge (named or all caches, delete ok or failing) / purge elsewhere (absent cache name, same key in a neighbouring cache, another key: must leave this key's resident entry and store record alone) / evict (filler key in the same 1-slot shard) / restart (fresh dispatcher on the same store) / store corruption (missing, truncated in the response / after 8 bytes / 1-15 bytes short inside the trailing time fields, status word 1 or 0, expiry 0, nil response, expired, hit-for-pass, foreign hit) / store read-write fault modes; every history ends by draining the upstream; before the histories, two scenarios with a store that cannot be opened (miss, fill, hit, purge, miss must work from memory) and the recorded histories of flight/corpus.json (each once exposed a defect or a seeded change); observation after each op at quiescence = state of every request (parked / in upstream with label / done with label, response id, age) and the decoded store record; non-trivial = history with at least one parked request or one hit; distinct by op sequence"
+	sum.Rule = "one case = one history of 30-45 ops on one cache key through the real cache middleware (server.NewCache over a real size-8 dispatcher, fake store in half of the cases) under testing/synctest: arrive (GET, 6% POST) / release of an in-flight upstream exchange with outcome {cacheable ttl 1,2,3,5 | uncacheable | error | nil response | panic} / tick 200 ms..301 s / purge (named or all caches, delete ok or failing) / re-application of the unchanged cache configuration (must change nothing) / purge elsewhere (absent cache name, same key in a neighbouring cache, another key: must leave this key's resident entry and store record alone) / evict (filler key in the same 1-slot shard) / restart (fresh dispatcher on the same store) / store corruption (missing, truncated in the response / after 8 bytes / 1-15 bytes short inside the trailing time fields, status word 1 or 0, expiry 0, nil response, expired, hit-for-pass, foreign hit) / store read-write fault modes; every history ends by draining the upstream; before the histories, two scenarios with a store that cannot be opened (miss, fill, hit, purge, miss must work from memory) and the recorded histories of flight/corpus.json (each once exposed a defect or a seeded change); observation after each op at quiescence = state of every request (parked / in upstream with label / done with label, response id, age) and the decoded store record; non-trivial = history with at least one parked request or one hit; distinct by op sequence"
 	header := "From Coq Require Import List ZArith.\nImport ListNotations.\nFrom Pike Require Import Model.Sys Corr.SysCorr.\n"
 	w := hx.NewCaseWriter(out, "flight", header, "list fl_case", "check_cases", 6, sum)
 	distinct := hx.NewDistinct()
